@@ -32,7 +32,15 @@ def _scratch_copy(root):
         p = os.path.join(root, extra)
         if os.path.isfile(p):
             shutil.copy(p, d)
+    copy_native_sources(root, d)
     return d
+
+
+def copy_native_sources(root, d):
+    """The Rust sources of the native layers (C22 reads their pyo3 interface): ~300 KB."""
+    rs = os.path.join(root, "crates", "dask-array-python", "src")
+    if os.path.isdir(rs):
+        shutil.copytree(rs, os.path.join(d, "crates", "dask-array-python", "src"))
 
 
 def _apply(d, v):
@@ -141,6 +149,7 @@ def _eval_patch(args):
         shutil.copytree(os.path.join(REPO, "dask_array"), os.path.join(d, "dask_array"), ignore=shutil.ignore_patterns("__pycache__", "*.pyc", "*.so"))
         if os.path.isfile(os.path.join(REPO, "pyproject.toml")):
             shutil.copy(os.path.join(REPO, "pyproject.toml"), d)
+        copy_native_sources(REPO, d)
         p = subprocess.run(["patch", "-p1", "-s", "-i", patch], cwd=d, capture_output=True, text=True)
         if p.returncode != 0:
             return kind, pid, "does-not-apply", []
